@@ -397,10 +397,10 @@ def binding_signature(tree, globals_ok=()):
 
     def walk(n, env):
         if isinstance(n, ast.Lambda):
-            for dflt in n.args.defaults:
+            for dflt in list(n.args.defaults) + [d for d in n.args.kw_defaults if d is not None]:
                 walk(dflt, env)
             e2 = dict(env)
-            for a in n.args.args:
+            for a in n.args.posonlyargs + n.args.args + ([n.args.vararg] if n.args.vararg else []) + n.args.kwonlyargs + ([n.args.kwarg] if n.args.kwarg else []):
                 e2[a.arg] = counter[0]
                 counter[0] += 1
             walk(n.body, e2)
